@@ -45,7 +45,9 @@ STRAY_ANY = [";", "}", "{", "(", ")", ",", "*", "&", "@", "<", ">", "const", "cl
              # C++ that interface authors paste from headers and that is not in the dialect
              "noexcept", "override", "final", "explicit", "inline", "mutable", "volatile", "constexpr", "friend",
              "public:", "private:", "typename", "struct", "throw()", "= 0", "= default", "= delete",
-             "[[nodiscard]]", "&&", "noexcept(true)", "extern", "unsigned", "long"]
+             "[[nodiscard]]", "&&", "noexcept(true)", "extern", "unsigned", "long",
+             # characters editors and broken transfers leave behind
+             "\x00", "\x1a", "\x0c", "\ufeff", "\u00a0"]
 CPP_TAIL = ["noexcept", "override", "final", "noexcept(false)", "throw()", "= 0", "= default", "= delete", "volatile",
             "&&", "const noexcept", "noexcept override", "-> int"]
 CPP_HEAD = ["explicit", "inline", "constexpr", "friend", "mutable", "extern", "public:", "private:", "[[nodiscard]]",
@@ -130,7 +132,7 @@ def corrupt(lexemes, starts, tape, n, late=False):
             tape.wpick([("delete", 4), ("duplicate", 3), ("swap", 3), ("stray", 3), ("del-bracket", 2),
                            ("trunc-lex", 2), ("trunc-bytes", 2), ("dup-block", 1), ("stray-toplevel", 2),
                            ("misspell", 2), ("stray-qualifier", 1.5), ("sig-tail", 2), ("member-head", 1.5), ("drop-default", 1.5), ("mangle-include", 1),
-                           ("list-edge", 2.5)],
+                           ("list-edge", 2.5), ("bad-byte", 0.8)],
                           "corruption")
         i = tape.choose(len(lex), "pos")
         if kind == "delete":
@@ -294,6 +296,11 @@ def corrupt(lexemes, starts, tape, n, late=False):
             lex = lex[:i]
         elif kind == "trunc-bytes":
             cut_frac = (1 + tape.choose(97, "cut")) / 100.0
+        elif kind == "bad-byte":
+            # a byte that is not UTF-8 (0xFF, or a lone continuation byte) somewhere in the file: the text cannot
+            # even be decoded, whatever surrounds the byte
+            lex.insert(i, "\udcff" if tape.bool(0.5, "ff-or-continuation") else "\udc85")
+            must_reject = True
         elif kind == "dup-block":
             if len(starts) >= 2 and pristine[0]:
                 k = tape.choose(len(starts) - 1, "which-decl")
@@ -370,7 +377,7 @@ def gen_case(tape, batch):
         if tape.bool(0.06, "crlf"):
             text = text.replace("\n", "\r\n")        # a file edited on Windows: the same text to a text-mode reader
             case.setdefault("crlf", True)
-        case["inputs"][path] = text.encode("utf-8")
+        case["inputs"][path] = text.encode("utf-8", "surrogateescape")
         case["files"].append(path)
     case["corruptions"] = kinds_all
     case["must_reject_by_construction"] = must_reject
